@@ -129,6 +129,11 @@ ReleaseStart(id) ==
     /\ live' = { t \in live : t.id /= id }
     /\ UNCHANGED <<mgrs, freed>> /\ UNCHANGED lfvars
 
+(* any other public method of the manager / token manager / token cache / lazy free list / token   *)
+(* (statistics, clear_stats, clear_all_stats, getters, reporters): a stutter step - it leaves the    *)
+(* token state unchanged; the observation logged right after it is judged as any other               *)
+Neutral == UNCHANGED tokvars /\ UNCHANGED lfvars
+
 (* the code holding the tokens ids panicked and the stack is being unwound (the panic is caught by  *)
 (* catch_unwind, or ends a thread that is joined): the tokens that were in scope are dropped by    *)
 (* the unwinding - their release starts, they are no longer live                                   *)
